@@ -251,6 +251,16 @@ def memory_event(model, e, sk, bytewise=True):
             return sk.call_closure(e, lam)
     nm = e["callee"]["name"]
     args = [a for a in kids(e) if a is not None and a["k"] != "DefaultArg"]
+    if nm in ("begin", "end", "cbegin", "cend") and e["callee"].get("qname") == "std::" + nm and e["k"] == "CallExpr" and len(args) == 1 \
+            and sk.tu is not None and sk.tu.by_did.get(e["callee"].get("did")) is None:
+        # std::begin(a) / std::end(a) of a built-in array of known extent (one cell per element): its first cell / one past its last
+        m_ = re.match(r"^(?:const )?[^\[\]&*]+?\[(\d+)\]$", (strip_casts(args[0]).get("ty") or "").strip())
+        if not m_:
+            raise dtable.Undecidable("%s: std::%s() at line %s of something that is not an array of known extent" % (sk.fn.loc, nm, e.get("l")))
+        base = sk.ev(args[0])
+        if not isinstance(base, int) or isinstance(base, bool):
+            raise dtable.Undecidable("%s: std::%s() at line %s: the array is not an object of the evaluation" % (sk.fn.loc, nm, e.get("l")))
+        return base + (int(m_.group(1)) if nm.endswith("end") else 0)
     if nm in ("min", "max") and len(args) == 2 and sk.tu is not None:
         callee = sk.tu.by_did.get(e["callee"].get("did"))
         if callee is not None and callee.body is not None:
@@ -516,6 +526,21 @@ class CallCounter:
         self.consts = {}        # parameters of a followed helper that were given compile-time constants
         self.opaque = []        # calls that could neither be classified nor followed
         self.foreign = False    # a counted / followed member call is made on an object other than *this
+        self.selfrefs = set()   # reference / pointer parameters of the followed helper that are bound to *this / this
+
+    def self_obj(self, e):
+        """the expression names the object the examined member function was called on: this, *this, &*this, or a reference /
+        pointer parameter of the followed helper that was given one of these (and cannot have been re-seated)"""
+        e = strip_casts(e)
+        while e is not None and e["k"] == "ParenExpr" and kids(e):
+            e = strip_casts(kids(e)[0])
+        if e is None:
+            return False
+        if e["k"] == "This":
+            return True
+        if e["k"] == "UnaryOperator" and e.get("op") in ("*", "&") and kids(e):
+            return self.self_obj(kids(e)[0])
+        return e["k"] == "DeclRefExpr" and e["ref"].get("id") in self.selfrefs
 
     def known(self, e):
         """truth value of a branch condition that only depends on constant arguments of the followed helper, else None"""
@@ -544,7 +569,8 @@ class CallCounter:
         args = [a for a in kids(e) if a is not None]
         if e.get("member_call"):
             args = args[1:]
-        saved = dict(self.consts)
+        saved = (dict(self.consts), self.selfrefs)
+        bound = set()
         written = {ref_of(kids(x)[0]) for x in callee.nodes() if x["k"] in ("BinaryOperator", "CompoundAssignOperator", "UnaryOperator")
                    and (x.get("op") in ("++", "--") or x.get("op", "").endswith("=") and x.get("op") not in ("==", "!=", "<=", ">=")) and kids(x)}
         if len(args) == len(callee.params):
@@ -552,7 +578,14 @@ class CallCounter:
                 v = self.known(a)
                 if v is not None and p_["did"] not in written and "&" not in (p_.get("ty") or ""):
                     self.consts[p_["did"]] = v
+                ty = (p_.get("ty") or "").rstrip()
+                if ((ty.endswith("&") and not ty.endswith("&&")) or (ty.endswith("*") and p_["did"] not in written)) and self.self_obj(a):
+                    bound.add(p_["did"])
+        self.selfrefs = bound
         return saved
+
+    def leave(self, saved):
+        self.consts, self.selfrefs = saved
 
     def returned_cases(self, fn, depth=0):
         """the kinds of value the feasible return statements hand out: 'uc' / 'lc' (a hexdump call of that case, directly
@@ -600,7 +633,7 @@ class CallCounter:
                 try:
                     return self.returned_cases(callee, depth + 1) or {"?"}
                 finally:
-                    self.consts = saved
+                    self.leave(saved)
         if e is not None and e["k"] == "DeclRefExpr" and e["ref"].get("kind") == "local":
             return {self.local_case(e, fn, depth)}
         return {"?"}
@@ -758,7 +791,7 @@ class CallCounter:
         if "callee" in e:
             c = e["callee"]
             if e.get("member_call") and (self.is_target(c) or self.tu.by_did.get(c.get("did")) is not None) and \
-                    not (kids(e) and strip_casts(kids(e)[0]) is not None and strip_casts(kids(e)[0])["k"] == "This"):
+                    not (kids(e) and self.self_obj(kids(e)[0])):
                 self.foreign = True
             if self.is_target(c):
                 tot = _plus(tot, {1})
@@ -769,7 +802,7 @@ class CallCounter:
                     try:
                         tot = _plus(tot, self.fn_counts(callee))
                     finally:
-                        self.consts = saved
+                        self.leave(saved)
                 elif not (c.get("qname") or "").startswith("std::") and not (c.get("record") or "").startswith("std::"):
                     self.opaque.append(c.get("qname") or c.get("name"))
         return tot
